@@ -747,6 +747,12 @@ CORPUS = [
     dict(kind="alpha", backend="atlas", why="func_adl beta-reduces Where.Where into a nested lambda that rebinds the name",
          a='ds.Select(lambda e: e.Jets("a").Where(lambda a: a.eta() > 0).Where(lambda x: x.kids().Where(lambda k: k.pt() >= 1.5).Count() > 1).Select(lambda f: f.phi()))',
          b='ds.Select(lambda e: e.Jets("a").Where(lambda a: a.eta() > 0).Where(lambda x: x.kids().Where(lambda x: x.pt() >= 1.5).Count() > 1).Select(lambda f: f.phi()))'),
+    dict(kind="alpha", backend="atlas", why="a parameter named like a declared C++ namespace, after that namespace was used",
+         a='ds.Select(lambda e: e.Jets("A").Where(lambda j: j.pt() > FvNS.Kind.Color.Red).Select(lambda k: k.pt()))',
+         b='ds.Select(lambda e: e.Jets("A").Where(lambda j: j.pt() > FvNS.Kind.Color.Red).Select(lambda FvNS: FvNS.pt()))'),
+    dict(kind="alpha", backend="cms_aod", why="a parameter named like a declared C++ namespace, after that namespace was used (event level)",
+         a='ds.Where(lambda e: e.Muons("muons").Where(lambda m: m.pt() == FvNS.Kind.Color.Blue).Count() > 0).Select(lambda ev: ev.Muons("muons").Count())',
+         b='ds.Where(lambda e: e.Muons("muons").Where(lambda m: m.pt() == FvNS.Kind.Color.Blue).Count() > 0).Select(lambda FvNS: FvNS.Muons("muons").Count())'),
     dict(kind="alpha", backend="atlas", why="the test suite's nested lambda reusing an argument name",
          a='ds.Select(lambda e: e.Jets("A").Select(lambda j: e.Tracks("T").Where(lambda t: t.pt() > j.pt()).Count()))',
          b='ds.Select(lambda x: x.Jets("A").Select(lambda j: x.Tracks("T").Where(lambda x: x.pt() > j.pt()).Count()))'),
